@@ -17,6 +17,12 @@ def run(tier):
     jobs = ec.catalogue_jobs(seeds=(1, 2) if tier == 'quick' else (1, 2, 3, 4, 5, 6))
     jobs += ec.random_jobs(rnd, n, label='dag')
     jobs += ec.reverse_jobs(rnd, 20 if tier == 'quick' else 300)
+    # shapes in which ONE completion affects two existing joins (too wide for the exhaustive budgets: real engine under every policy)
+    from harness import gen as _gen, engrun as _engrun
+    for _nm, _P in _gen.wide_shapes():
+        for _sch in ('default', 'legacy'):
+            for _pol in _engrun.POLICIES[1:]:
+                jobs.append(dict(prog=_P, scheduler=_sch, policy=_pol, seed=1 + len(_nm), label=_nm))
     return ec.run_property(PID, tier, jobs,
                            'generated direct DAGs (forks, joins, guards, error routes, fail/succeed commands) and reverse graphs x action-result '
                            'assignments x schedule policies x both schedulers; non-trivial = distinct runs with at least two task executions',
